@@ -120,6 +120,10 @@ fn response(tr: &mut Tr, rng: &mut Rng, thorough: bool) {
         if !is_fmt && tc.is_none() { tr.ev(json!({"ev":"Skip","functional":fu.name,"system":"response","why":"no critical point"})); continue; }
         let sigma = if is_fmt { 1.0 } else if fu.name == "Pets" { 3.4 } else { 3.6 };
         let ncases = if thorough { 14 } else { 3 };
+        // debugging aid: C19_CASE="functional:geometry:potential:size:Tr:frac:points" runs exactly that case
+        let dbg: Option<Vec<String>> = std::env::var("C19_CASE").ok().map(|s| s.split(':').map(|x| x.to_owned()).collect());
+        if let Some(d) = &dbg { if d[0] != fu.name { continue; } }
+        let ncases = if dbg.is_some() { 1 } else { ncases };
         for case in 0..ncases {
             let (gname, geom) = geoms[(case + rng.below(3)) % 3].clone();
             let pots = potentials(feos_dft::HelmholtzEnergyFunctional::m(&*fu.f).len());
@@ -127,8 +131,16 @@ fn response(tr: &mut Tr, rng: &mut Rng, thorough: bool) {
             let size = if is_fmt { rng.range(5.0, 9.0) } else { rng.range(4.5, 11.0) * sigma };
             let size = if gname == "slit" { size } else { size * 0.8 };
             let tr_red = if case % 3 == 2 { rng.range(1.02, 1.5) } else { rng.range(0.6, 0.95) };
-            let t = if is_fmt { 1.0 } else { tr_red * tc.unwrap() };
             let frac = rng.lrange(0.02, 0.3);
+            let (gname, geom, pname, pot, size, tr_red, frac, n_grid) = match &dbg {
+                None => (gname, geom, pname, pot, size, tr_red, frac, n_grid),
+                Some(d) => {
+                    let g = geoms.iter().find(|g| g.0 == d[1]).unwrap().clone();
+                    let p = pots.iter().find(|p| p.0 == d[2]).unwrap().clone();
+                    (g.0, g.1, p.0, p.1, d[3].parse().unwrap(), d[4].parse().unwrap(), d[5].parse().unwrap(), d[6].parse().unwrap())
+                }
+            };
+            let t = if is_fmt { 1.0 } else { tr_red * tc.unwrap() };
             let x: Vec<f64> = if fu.n == 1 { vec![1.0] } else { let a = rng.range(0.25, 0.75); vec![a, 1.0 - a] };
             let meta = json!({"functional": fu.name, "geometry": gname, "potential": pname, "pore_size": fs(size), "points": n_grid,
                 "T_reduced": fs(tr_red), "fraction_of_saturation": fs(frac), "chain": fu.chain, "components": fu.n});
@@ -365,7 +377,7 @@ fn isotherms(tr: &mut Tr, rng: &mut Rng, thorough: bool) {
             let pore = Pore1D::new(geom, Length::from_reduced(size), ExternalPotential::LJ93 { sigma_ss: 3.0, epsilon_k_ss: 100.0, rho_s: 0.08 }, Some(1024), None);
             let pressure = Pressure::from_reduced(Array1::linspace(0.05 * psat, 0.95 * psat, npts));
             let mut ev = json!({"ev":"Isotherm","functional":fu.name,"T_reduced":fs(trr),"pore_size":fs(size),"geometry":if case % 3 != 1 { "slit" } else { "cylindrical" },
-                "p_sat":fs(psat),"requested":npts,"p_requested":fv(pressure.to_reduced().iter())});
+                "p_sat":fs(psat),"requested":npts,"points":1024,"p_requested":fv(pressure.to_reduced().iter())});
             let dump = |a: &Adsorption1D<F>| -> Value {
                 let p = a.pressure().to_reduced();
                 let om = a.grand_potential().to_reduced();
